@@ -268,6 +268,19 @@ func run(c *simrun.Ctx) *simrun.Violation {
 					st.Add("fault_mutate_and_revert_between_encodings", 1)
 				}
 			}
+			if t.Chance("nondet-marshal-between", 1, 6) {
+				// an ordinary (non-deterministic) Marshal and a Size between two
+				// deterministic encodings, under an order of its own: anything it
+				// leaves behind (cached bytes, memoised orders) must not show
+				simhook.Ord = &simhook.OrderCtl{Seed: uint64(t.Draw("nondet-ordseed", 1<<30)), Mode: simhook.OrdShuffle}
+				func() {
+					defer func() { recover() }()
+					proto.Marshal(m)
+					proto.Size(m)
+				}()
+				simhook.Ord = nil
+				st.Add("fault_nondeterministic_marshal_between_encodings", 1)
+			}
 			ctl := &simhook.OrderCtl{Seed: seed, Mode: mode}
 			simhook.Ord = ctl
 			b, err := marshalVariant(m, api, prefix)
